@@ -712,6 +712,11 @@ class BptkServer(Flask):
             individual_agent_properties=individual_agent_properties
         )
 
+        # a session that was begun is externalised right away, like every step: otherwise a restart before the first step
+        # restores whatever session the instance had before (or no instance at all)
+        if self._external_state_adapter != None:
+            self._external_state_adapter.save_instance(self._instance_manager._get_instance_state(instance_uuid))
+
         resp = make_response('{"msg":"session started"}', 200)
         resp.headers['Content-Type'] = 'application/json'
         resp.headers['Access-Control-Allow-Origin']='*'
